@@ -26,6 +26,11 @@ type CrashPoint struct {
 	// "torn" (and for the other WAL files of the incarnation in any mode).
 	TearBytes int // >=0: keep exactly min(TearBytes, unsynced) bytes; <0: use TearFrac
 	TearFrac  float64
+	// ZeroFill: when the cut falls strictly inside a record, the rest of THAT
+	// record is present but zero-filled (the file length was extended, the
+	// data blocks of the torn write never reached the disk): a full-length
+	// record with a wrong checksum at the tail.
+	ZeroFill bool
 }
 
 type walRec struct {
@@ -372,12 +377,28 @@ func (x *WalX) crash(at *walFile, cp *CrashPoint, where string) {
 		}
 		keep := f.synced + keepTail
 		copyFile(dst, src, keep)
+		tc := tearClass(f, keep)
+		if cp.ZeroFill && (tc == "in-header" || tc == "in-payload" || tc == "header-complete-payload-empty") {
+			// zero-fill up to the end of the record that contains the cut
+			for _, r := range f.recs {
+				if r.end > keep {
+					if r.end <= onDisk {
+						if fh, err := os.OpenFile(dst, os.O_WRONLY|os.O_APPEND, 0600); err == nil {
+							fh.Write(make([]byte, r.end-keep))
+							fh.Close()
+							tc += "-zero-filled"
+						}
+					}
+					break
+				}
+			}
+		}
 		for _, r := range f.recs {
 			if r.end <= keep && filepath.Base(f.id) == "round" {
 				x.survived[string(r.payload)] = true
 			}
 		}
-		desc.Files = append(desc.Files, CrashFile{Name: e.Name(), Synced: f.synced, OnDisk: onDisk, Kept: keep, TearClass: tearClass(f, keep)})
+		desc.Files = append(desc.Files, CrashFile{Name: e.Name(), Synced: f.synced, OnDisk: onDisk, Kept: keep, TearClass: tc})
 	}
 	// stop the housekeeping goroutines of the dead incarnation's writers (the
 	// image is already taken; flushing into the old directory is harmless)
